@@ -6,10 +6,7 @@ use std::thread;
 use anyhow::Context;
 use hyper_util::rt::TokioIo;
 use hyper_util::server::graceful::GracefulShutdown;
-#[cfg(not(pavex_verif))]
-use tokio::net::TcpStream;
-#[cfg(pavex_verif)]
-use super::sim::TcpStream;
+#[cfg(not(pavex_verif))] use tokio::net::TcpStream;
 use tokio::sync::mpsc::error::TrySendError;
 use tracing_log_error::log_error;
 
@@ -318,3 +315,6 @@ where
         tokio::task::spawn_local(fut);
     }
 }
+
+#[cfg(pavex_verif)]
+use super::sim::TcpStream;
